@@ -154,8 +154,9 @@ func rewriteFile(w *World, file *ast.File, kind string) ([]byte, int) {
 			return true
 		})
 	}
-	if kind == "rettmp" {
-		// return f(a, b)  ->  r0, r1 := f(a, b); return r0, r1
+	if kind == "rettmp" || kind == "retlit" {
+		// rettmp: return f(a, b)  ->  r0, r1 := f(a, b); return r0, r1
+		// retlit: return T{…} / return &T{…}  ->  r0 := T{…}; return r0
 		var pkg *packages.Package
 		for _, p := range w.Pkgs {
 			for _, f := range p.Syntax {
@@ -173,15 +174,29 @@ func rewriteFile(w *World, file *ast.File, kind string) ([]byte, int) {
 			if !ok || len(rs.Results) != 1 {
 				return list
 			}
-			ce, ok := rs.Results[0].(*ast.CallExpr)
-			if !ok {
-				return list
+			var ce ast.Expr
+			if kind == "retlit" {
+				e := rs.Results[0]
+				if ue, isAddr := e.(*ast.UnaryExpr); isAddr && ue.Op == token.AND {
+					e = ue.X
+				}
+				cl, isLit := e.(*ast.CompositeLit)
+				if !isLit || cl.Type == nil {
+					return list
+				}
+				ce = rs.Results[0]
+			} else {
+				call, ok := rs.Results[0].(*ast.CallExpr)
+				if !ok {
+					return list
+				}
+				if _, isConv := pkg.TypesInfo.Types[call.Fun]; isConv && pkg.TypesInfo.Types[call.Fun].IsType() {
+					return list
+				}
+				ce = call
 			}
 			tv, ok := pkg.TypesInfo.Types[ce]
 			if !ok || tv.IsType() || tv.Type == nil {
-				return list
-			}
-			if _, isConv := pkg.TypesInfo.Types[ce.Fun]; isConv && pkg.TypesInfo.Types[ce.Fun].IsType() {
 				return list
 			}
 			cnt := 1
